@@ -25,6 +25,9 @@ import mut_ex
 import mut_c01
 from common import Case
 
+# wider levels than the exhaustive bound of the quick tier reaches: a node with three / four children (below the
+# root and below a top node), so that "all but the last child" and "first two children" mistakes have room
+WIDE_SHAPES = [(((), (), ()),), (((), (), (), ()),), ((((), (), ()),), ())]
 QUICK_FAMILIES = ("add", "short", "move", "remove", "remove_children", "clear", "set_data", "del", "copyto", "addnode")
 CHUNK = 40
 
@@ -111,7 +114,8 @@ class Prop:
                 alts = [a for a in alts if a[0] not in [f for f, _ in thin] or id(a) in keep]
             for i in range(0, len(alts), CHUNK):
                 yield dict(kind="alts", univ=g["univ"], setup=g["setup"], alts=alts[i:i + CHUNK], label=g["label"])
-        for g in mut.gen_shapes(mut.EXTRA_SHAPES[:2] if quick else mut.EXTRA_SHAPES, labelings=("equal",) if quick else ("distinct", "equal"),
+        for g in mut.gen_shapes((mut.EXTRA_SHAPES[:2] + WIDE_SHAPES[:2]) if quick else (mut.EXTRA_SHAPES + WIDE_SHAPES[:2]),
+                                labelings=("equal",) if quick else ("distinct", "equal"),
                                 families=("remove", "move", "remove_children") if quick else ("remove", "move", "remove_children", "short", "del", "copyto", "sort")):
             alts = g["alts"] if not quick else [a for i, a in enumerate(g["alts"]) if a[0] != "move" or i % 4 == 0]
             for i in range(0, len(alts), CHUNK):
